@@ -22,7 +22,8 @@ RULE = (
 REQUIRED = ["batch_entries_compared", "batches/cache_on", "batches/cache_off", "batches/tiny_cache", "batches/parallel_entries",
             "batches/parallel_rules", "cache_coherence_evals", "lookalike_pairs_in_batches", "repeated_substrates_in_batches",
             "validate_smiles_compared", "validate_records_where_tautomer_flag_matters", "validate_records_where_aromaticity_flag_matters", "balance_compared", "cluster_batches_compared", "syncrn_compared",
-            "batches/adversarial_id", "nonempty_entry_results", "batches/explicit_mode"]
+            "batches/adversarial_id", "nonempty_entry_results", "batches/explicit_mode", "batches/dedupe_off", "batches/repeated_rule_objects",
+            "cluster_batches_with_attribute", "cluster_batches_with_partial_attribute"]
 ASSUMPTIONS = [
     "reference for one entry: SynReactor on smiles_to_graph(entry) for each rule graph in order, flattened, order-preserving de-duplication",
     "the cache-coherence monitor only sees calls made in this process (entry_n_jobs=1); worker processes are covered by the output differential",
@@ -83,7 +84,7 @@ def set_adversarial(on, seed=0):
     return None
 
 
-def reference(entry, rule_graphs, invert, strategy, explicit_h, implicit_temp):
+def reference(entry, rule_graphs, invert, strategy, explicit_h, implicit_temp, dedupe=True):
     from synkit.IO.chem_converter import smiles_to_graph
     from synkit.Synthesis.Reactor.syn_reactor import SynReactor
 
@@ -95,6 +96,8 @@ def reference(entry, rule_graphs, invert, strategy, explicit_h, implicit_temp):
             flat.extend(list(rx.smarts_list))
         except Exception:
             pass
+    if not dedupe:
+        return flat
     seen, out = set(), []
     for x in flat:
         if x not in seen:
@@ -112,17 +115,25 @@ def check_batch(ctx, entries, rules, cfg, tag):
     from synkit.Synthesis.Reactor.batch_reactor import BatchReactor
 
     invert = cfg.get("invert", False)
-    kw = {k: v for k, v in cfg.items() if k not in ("invert", "adversarial", "refit", "graphs", "mode")}
+    kw = {k: v for k, v in cfg.items() if k not in ("invert", "adversarial", "refit", "graphs", "mode", "repeat_objs")}
     rule_graphs = BatchReactor._ensure_graph_rules(rules)
+    if cfg.get("repeat_objs"):
+        # the caller's rule list holds the same template object more than once (rules sampled with replacement)
+        rule_graphs = [rule_graphs[i % len(rule_graphs)] for i in cfg["repeat_objs"]]
+        ctx.count("batches/repeated_rule_objects")
+    fit_rules = rule_graphs if (cfg.get("graphs") or cfg.get("repeat_objs")) else rules
+    dedupe = cfg.get("dedupe", True)
+    if not dedupe:
+        ctx.count("batches/dedupe_off")
     if cfg.get("adversarial"):
         ctx.count("batches/adversarial_id")
         set_adversarial(True, ctx.seed * 17 + ctx.evaluations)
     try:
         eh, it = (True, False) if cfg.get("mode") == "explicit" else (False, True)
         b = BatchReactor(entries, strategy="bt", explicit_h=eh, implicit_temp=it, enable_logging=True, **kw)
-        res = b.fit(rule_graphs if cfg.get("graphs") else rules, invert=invert)
+        res = b.fit(fit_rules, invert=invert)
         if cfg.get("refit"):
-            res = b.fit(rules, invert=invert)  # same reactor again: rule graphs are re-created, cache survives
+            res = b.fit(fit_rules if cfg.get("repeat_objs") else rules, invert=invert)  # same reactor again: cache survives
     finally:
         if cfg.get("adversarial"):
             set_adversarial(False)
@@ -133,10 +144,10 @@ def check_batch(ctx, entries, rules, cfg, tag):
         return
     nonempty = 0
     for i, (e, r) in enumerate(zip(entries, res)):
-        ref = reference(e, rule_graphs, invert, "bt", *((True, False) if cfg.get("mode") == "explicit" else (False, True)))
+        ref = reference(e, rule_graphs, invert, "bt", *((True, False) if cfg.get("mode") == "explicit" else (False, True)), dedupe=dedupe)
         got = r.get(key)
         ctx.count("batch_entries_compared")
-        if got is None or canon_out(got) != canon_out(ref) or r.get("count") != len(got):
+        if got is None or canon_out(got) != canon_out(ref) or r.get("count") != len(got) or (not dedupe and list(got) != list(ref)):
             ctx.violation("batch-differs-from-single", {**wit, "index": i, "entry": e, "got": (got or [])[:2], "alone": ref[:2]},
                           f"entry #{i} ({e}) gets {len(got or [])} result(s) in the batch but {len(ref)} when processed alone")
             break
@@ -269,6 +280,29 @@ def check_cluster_batches(ctx):
             ctx.count("cluster_batches_compared")
             if not c13.same_partition([e["class"] for e in got], [e["class"] for e in one]) or not c13.same_partition([e["class"] for e in got], want):
                 ctx.violation("cluster-depends-on-batch-size", {"batch_size": bs, "n": len(graphs)}, f"batch_size={bs} gives a different partition than one-shot clustering")
+        # with a pre-grouping attribute: present on every entry (a real invariant), or missing on some entries
+        # (then it is just data: batched and one-shot clustering still have to agree with each other)
+        from synkit.Graph.Feature.graph_signature import GraphSignature
+        sigs = [GraphSignature(g).create_graph_signature() for g in graphs]
+        for partial in (False, True):
+            # (entry 0 keeps its key: GraphCluster inspects attributes[0] to decide how to normalise the values)
+            drop = {i for i in range(1, len(graphs)) if partial and rng.random() < 0.3}
+            if partial and not drop:
+                drop = {rng.randrange(1, len(graphs))}
+
+            def data():
+                return [({"gml": g} if i in drop else {"gml": g, "sig": sg}) for i, (g, sg) in enumerate(zip(graphs, sigs))]
+
+            one, _ = BatchCluster().fit(data(), None, rule_key="gml", attribute_key="sig", batch_size=None)
+            c_one = [e["class"] for e in one]
+            for bs in (1, 2, 3, 7):
+                got, _ = BatchCluster().fit(data(), None, rule_key="gml", attribute_key="sig", batch_size=bs)
+                ctx.count("cluster_batches_with_partial_attribute" if partial else "cluster_batches_with_attribute")
+                c_got = [e["class"] for e in got]
+                if not c13.same_partition(c_got, c_one) or (not partial and not c13.same_partition(c_got, want)):
+                    ctx.violation("cluster-depends-on-batch-size", {"batch_size": bs, "n": len(graphs), "entries_without_attribute": sorted(drop)},
+                                  f"batch_size={bs} with attribute key gives a different partition than one-shot clustering "
+                                  f"({len(set(c_got))} vs {len(set(c_one))} classes; {len(drop)} entries lack the key)")
 
 
 def graph_view(G):
@@ -330,6 +364,9 @@ def run(ctx):
         cfgs = [{"cache_enabled": True}, {"cache_enabled": False}, {"cache_enabled": True, "cache_maxsize": rng.choice([1, 2, 8])},
                 {"cache_enabled": True, "cache_maxsize": 2, "adversarial": True, "refit": True},
                 {"cache_enabled": True, "graphs": True, "refit": True}, {"invert": True}]
+        k = rng.randint(3, 5)
+        cfgs.append({"dedupe": False, "repeat_objs": [0] + [rng.randrange(3) for _ in range(k - 2)] + [0], "cache_enabled": rng.random() < 0.8})
+        cfgs.append({"dedupe": False, "cache_enabled": True, "repeat_objs": [rng.randrange(3) for _ in range(k)], "refit": rng.random() < 0.5})
         if t % 2 == 0:
             cfgs.append({"entry_n_jobs": rng.choice([2, 4])})
             cfgs.append({"parallel_rules": True, "rule_n_jobs": 2})
